@@ -96,7 +96,8 @@ func ReadHeaders(resp *protocol.Response, r network.Reader) error {
 	if err != nil {
 		return err
 	}
-	if resp.Header.StatusCode() == consts.StatusContinue {
+	// (a server, or the gateways before it, may send more than one)
+	for resp.Header.StatusCode() == consts.StatusContinue {
 		// Read the next response according to http://www.w3.org/Protocols/rfc2616/rfc2616-sec8.html .
 		if err = ReadHeader(&resp.Header, r); err != nil {
 			return err
